@@ -345,6 +345,19 @@ class C01(ClientProp):
         for _ in range(ctx.pick(30, 300)):
             ops = [op1(rng, rng.choice(["get_state", "get_schedules"]), {"zone": zone_rules("UTC", 1790000000)}) for _ in range(6)]
             out.append(one(rng, 1, ops, t0=t0_any(rng)))
+        # several API objects alive at once (both types, either construction order), their exchanges interleaved, some replies empty
+        helper = C03()
+        for _ in range(ctx.pick(80, 1500)):
+            apis = rng.choice([(1, 2), (2, 1), (1, 1), (2, 2), (1, 2, 1), (2, 1, 2)])
+            inst = []
+            for api in apis:
+                dev, key = rid(rng)
+                inst.append({"api": api, "dev": dev, "key": key})
+            ops = [[helper._any_op(rng, api) for _ in range(rng.randrange(1, 4))] for api in apis]
+            for lst in ops:
+                if rng.random() < 0.2:
+                    lst[-1]["replies"][0] = {"t": "eof"}      # this object's last login gets no answer
+            out.append({"zone": "UTC", "t0": t0_pre2038(rng), "inst": inst, "ops": ops, "order": [rng.randrange(len(apis)) for _ in range(40)]})
         return out
 
     def nontrivial(self, ev):
@@ -360,7 +373,8 @@ class C03(ClientProp):
             "device issues a fresh random session id per login. distinct = distinct events; non-trivial = frames and returns")
 
     def mc_runs(self, ctx):
-        return [{"module": "MC_Client", "cfg": ctx.pick("MC_Client.cfg", "MC_ClientDeep.cfg"), "timeout": 1700, "coverage": False}] + MODEL_RUNS[:1]
+        return [{"module": "MC_Client", "cfg": ctx.pick("MC_Client.cfg", "MC_ClientDeep.cfg"), "timeout": 1700, "coverage": False},
+                {"module": "MC_ClientShared", "expect_violation": "SessionOfOwnLogin", "workers": 2}] + MODEL_RUNS[:1]
 
     def _any_op(self, rng, api, zone="UTC", now=1790553600):
         if api == 1:
